@@ -74,7 +74,9 @@ func (a *Application) registerTranslatorRoutes() {
 			path := pathProvider.GetAPIPath()
 			handler := a.translationHandler(trans)
 
-			a.routeRegistry.RegisterWithMethod(
+			// the messages route proxies to backends: it goes through the security chain
+			// (rate limiting, size limits) exactly like /olla/proxy/ and the provider routes
+			a.routeRegistry.RegisterSecuredWithMethod(
 				path,
 				handler,
 				name+" Messages API",
